@@ -323,7 +323,7 @@ func genC12(m *M, budget int) {
 					f.setInt(b, big.NewInt(int64(1+f.rng.Intn(9))))
 				}
 				if f.rng.Intn(3) == 0 { // numerator with boundary / structured Montgomery limbs (either square-ness)
-					w, wc := f.window()
+					w, wc := f.resultTarget(bigP)
 					f.class("sqrt_ratio:u_" + wc)
 					f.setInt(a, mulmod(new(big.Int).Mod(w, bigP), rInvP, bigP))
 				} else if f.rng.Intn(2) == 0 { // make u/v a square on purpose half of the time: u = v * t^2
@@ -567,10 +567,7 @@ func genC11f(m *M, budget int) {
 	for f.events < budget {
 		f.reset()
 		for i := 0; i < 14; i++ {
-			w, wc := f.window()
-			if f.rng.Intn(2) == 0 {
-				w, wc = f.limbStruct(), "limb_struct"
-			}
+			w, wc := f.resultTarget(bigP) // two-representation range / boundary window / structured limbs
 			f.class("operand:" + wc)
 			f.setInt(0, mulmod(new(big.Int).Mod(w, bigP), rInvP, bigP))
 			f.put(1)
